@@ -385,7 +385,7 @@ pub static C16: PropDef = PropDef {
         "the kernel of this sandbox is the reference (Linux); probes run in a non-orphaned process group so terminal stop signals stop",
         "platform names come from `cc -dM -E <signal.h>` at check time (fallback: the libc crate's constants)",
     ],
-    cases: (150, 3000),
+    cases: (150, 30_000),
     shrink_iters: 100,
     worker,
     replay,
